@@ -26,7 +26,7 @@ pub fn families() -> Vec<Family> {
             "WebSocketServer outbound guard: inline response, off-reader response, handler-pushed notify, registry broadcast at sizes limit-2..limit+2 and random; raw peer with unlimited inbound observes the wire",
             c17_ws_server_paths,
         )
-        .runs(2_000, 80_000)
+        .runs(20_000, 1_200_000)
         .tokio(),
         Family::new(
             "c17_ws_server_burst",
@@ -34,7 +34,7 @@ pub fn families() -> Vec<Family> {
             "WebSocketServer outbound guard under queueing: one handler invocation pushes several notifies (direct or broadcast) of sizes around the limit back to back while sized responses are pipelined, so oversized messages sit behind others in the outbound queue",
             c17_ws_server_burst,
         )
-        .runs(2_000, 80_000)
+        .runs(40_000, 2_400_000)
         .steps(2_000_000)
         .tokio(),
         Family::new(
@@ -43,7 +43,7 @@ pub fn families() -> Vec<Family> {
             "proxy_connection_with_limits over a real AsyncClient<->AsyncServer hop: forwarded responses at sizes around the limit",
             c17_ws_proxy,
         )
-        .runs(1_500, 60_000)
+        .runs(6_000, 360_000)
         .tokio(),
         Family::new(
             "c17_ws_client",
@@ -51,7 +51,7 @@ pub fn families() -> Vec<Family> {
             "WebSocketClient outbound guard: requests and notifies at sizes around the limit against a recording raw server",
             c17_ws_client,
         )
-        .runs(2_000, 80_000)
+        .runs(35_000, 2_100_000)
         .tokio(),
     ]
 }
@@ -119,12 +119,17 @@ enum Path {
 fn c17_ws_server_paths(case: &Case) {
     net::reset(roomy_net());
     let limit = draw_limit();
+    // a route whose path alone is a sizeable share of the limit (the reply echoes it)
+    let long_q: Option<String> = match limit {
+        Some(l) if l <= 70_000 && simkernel::choose(3) == 0 => Some(format!("/L{}", "q".repeat(l - pick(&[60usize, 130, 171, 172, 173, 300, 1000]).min(l - 2) - 2))),
+        _ => None,
+    };
     let n_ops = range(1, 6) as usize;
     let ops: Vec<(Path, usize)> = (0..n_ops)
         .map(|_| {
-            let p = pick(&[Path::Inline, Path::OffReader, Path::PushedNotify, Path::Broadcast]);
+            let p = if long_q.is_some() { pick(&[Path::Inline, Path::Inline, Path::OffReader, Path::PushedNotify, Path::Broadcast]) } else { pick(&[Path::Inline, Path::OffReader, Path::PushedNotify, Path::Broadcast]) };
             let qlen = match p {
-                Path::Inline => "/sized".len(),
+                Path::Inline => long_q.as_ref().map(|q| q.len()).unwrap_or("/sized".len()),
                 Path::OffReader => "/sized_off".len(),
                 _ => "/pushed".len(),
             };
@@ -138,6 +143,7 @@ fn c17_ws_server_paths(case: &Case) {
         let reg2 = reg.clone();
         let router = Router::new()
             .with_erased_handler("/sized", Arc::new(Sized { off_reader: false }))
+            .with_erased_handler(long_q.as_deref().unwrap_or("/unused-long"), Arc::new(Sized { off_reader: false }))
             .with_erased_handler("/sized_off", Arc::new(Sized { off_reader: true }))
             .with_json("/echo", |v: Value| Ok(json!({"echo": v})))
             .with_json_ctx("/push", move |ctx, v: Value| {
@@ -178,7 +184,11 @@ fn c17_ws_server_paths(case: &Case) {
             let over = limit.is_some_and(|l| *size > l);
             match path {
                 Path::Inline | Path::OffReader => {
-                    let q: &[u8] = if *path == Path::Inline { b"/sized" } else { b"/sized_off" };
+                    let lq = long_q.clone().unwrap_or_default();
+                    let q: &[u8] = if *path == Path::Inline { if long_q.is_some() { lq.as_bytes() } else { b"/sized" } } else { b"/sized_off" };
+                    if long_q.is_some() && *path == Path::Inline {
+                        case.probe("long_query_near_limit");
+                    }
                     let n = size - 48 - q.len();
                     let body = serde_json::to_vec(&json!({"n": n})).unwrap();
                     let _ = send_frame(&mut sink, &Frame::new(id, q, &body).with_formats(1, 2)).await;
